@@ -589,7 +589,7 @@ SKEL_ROLES = [
     ('exit_restore_path', 'exit: _restore_list(path)'), ('rebind', 'sys.argv, sys.path = (argv, path)'), ('call_main', '_main(args)'),
     ('en', 'self.enable_by_count()'), ('dis', 'self.disable_by_count()'), ('yield', 'yield'),
     ('if_interval', 'if: options.output_interval'), ('if_builtin', 'if: options.builtin'), ('if_global', 'if: global_profiler'),
-    ('builtins_set', "builtins.__dict__['profile'] = profile"), ('builtins_restore', "builtins.__dict__['profile'] = old_profile"),
+    ('kp_builtins_set', "builtins.__dict__['profile'] = prof"), ('builtins_set', "builtins.__dict__['profile'] = profile"), ('builtins_restore', "builtins.__dict__['profile'] = old_profile"),
     ('builtins_del', "del builtins.__dict__['profile']"), ('lprun_run', 'profile.runctx(arg_str'), ('lprun_page', 'page(output)'),
     ('lprun_print_stats', 'profile.print_stats('), ('lprun_dump', 'profile.dump_stats(dump_file)'), ('lprun_write', 'pfile.write(output)'),
     ('lprun_return', 'return_value = profile'),
